@@ -193,6 +193,11 @@ pub struct Unhandled {
 pub static mut EMERGENCY: Option<fn(&Unhandled) -> !> = None;
 /// optional resolver for page faults inside a software-MMU window: returns true if resolved
 pub static mut PF_RESOLVER: Option<fn(addr: u64, write: bool, rip: u64) -> bool> = None;
+/// optional redirection of one page this process cannot map (a kernel-half address): (page, shadow page, hits). An access
+/// to the page faults; every general register that points into the page is re-pointed into the shadow and the instruction
+/// restarted, so the code under test reads / writes the shadow instead.
+pub static mut REDIRECT: Option<(u64, u64)> = None;
+pub static REDIRECT_HITS: AtomicU64 = AtomicU64::new(0);
 
 const GREG: [usize; 16] = [
     libc::REG_RAX as usize,
@@ -393,6 +398,38 @@ unsafe fn emulate(ctx: &Ctx) -> bool {
                 _ => rax & 0xffff_ffff,
             };
             len = p;
+        }
+        0xe4 | 0xe5 => {
+            // in al/ax/eax, imm8
+            ev.kind = K::In;
+            let w: u8 = if op == 0xe4 { 1 } else if opsize16 { 2 } else { 4 };
+            ev.width = w;
+            ev.n = *code.add(p) as u32;
+            let v = io_next(r);
+            let rax = ctx.get(0);
+            let (newrax, supplied) = match w {
+                1 => ((rax & !0xff) | (v & 0xff), v & 0xff),
+                2 => ((rax & !0xffff) | (v & 0xffff), v & 0xffff),
+                _ => (v & 0xffff_ffff, v & 0xffff_ffff),
+            };
+            ctx.set(0, newrax);
+            ev.val = supplied;
+            r.last_in_value = supplied;
+            len = p + 1;
+        }
+        0xe6 | 0xe7 => {
+            // out imm8, al/ax/eax
+            ev.kind = K::Out;
+            let w: u8 = if op == 0xe6 { 1 } else if opsize16 { 2 } else { 4 };
+            ev.width = w;
+            ev.n = *code.add(p) as u32;
+            let rax = ctx.get(0);
+            ev.val = match w {
+                1 => rax & 0xff,
+                2 => rax & 0xffff,
+                _ => rax & 0xffff_ffff,
+            };
+            len = p + 1;
         }
         0x6c..=0x6f => {
             // string I/O moves data through memory: recorded, not emulated
@@ -653,6 +690,24 @@ extern "C" fn handler(sig: i32, info: *mut libc::siginfo_t, uc: *mut libc::c_voi
         let armed = ARMED.load(Ordering::Relaxed);
         // page faults inside a software-MMU window come first (si_code SEGV_MAPERR / SEGV_ACCERR with an address)
         if sig == libc::SIGSEGV {
+            if let Some((from, to)) = REDIRECT {
+                // (a kernel-half address gives no si_addr: the registers decide)
+                let mut hit = false;
+                for g in 0..16 {
+                    if g == 4 {
+                        continue;
+                    }
+                    let v = ctx.get(g);
+                    if v & !0xfff == from {
+                        ctx.set(g, to + (v & 0xfff));
+                        hit = true;
+                    }
+                }
+                if hit {
+                    REDIRECT_HITS.fetch_add(1, Ordering::Relaxed);
+                    return;
+                }
+            }
             if let Some(res) = PF_RESOLVER {
                 let code = (*info).si_code;
                 if code == 1 || code == 2 {
